@@ -268,7 +268,9 @@ func checkC03(c *Ctx) error {
 			seen[fmt.Sprintf("exit=%d reported=%s", r.Exit, strings.Join(rep, ","))]++
 		}
 		want := "exit=1 reported=" + strings.Join(order, ",")
-		if len(seen) != 1 || seen[want] != runs {
+		if len(seen) == 1 && seen["exit=1 reported="] == runs {
+			c.infra(fmt.Errorf("format --check --all: the report lines are not recognised (wording changed?)"))
+		} else if len(seen) != 1 || seen[want] != runs {
 			c.violation("determinism", map[string]any{"what": "format --check --all " + strings.Join(mode, " ") + " over 7 unformatted files", "distinct_results": seen, "expected": want,
 				"why": "the reports of format --check --all must come in walk order, the same in every run"})
 		}
